@@ -98,15 +98,16 @@ def ibigPow (W : Nat) (a : SRepr) (exp : Nat) : SRepr :=
 /-- `exp * shift` is computed in `usize`; 64 bits on the targets the harness runs on -/
 def usizeBits : Nat := 64
 
-/-- the input class on which `UBig::pow` / `IBig::pow` leave the mirrored path: the product
-    `exp * shift` does not fit `usize`.  The exact result then has at least `2^64` bits, more than
-    any `Buffer` can hold (`MAX_CAPACITY · WORD_BITS < 2^64`), so the property requires the documented
-    allocation panic; the code instead overflows the multiplication (debug: undocumented panic,
-    release: wraps and returns a wrong value) — finding `corpus/C01/pow_shift_overflow.case`. -/
+/-- `exp.checked_mul(shift)` fails: the product `exp * shift` does not fit `usize`.  The exact result
+    then has at least `2^64` bits, more than any `Buffer` can hold (`MAX_CAPACITY · WORD_BITS < 2^64`),
+    and `UBig::pow` / `IBig::pow` raise the documented allocation panic (`panic_allocate_too_much`).
+    (Before `fix: 099d251` the product was unchecked: debug builds panicked with an arithmetic
+    overflow and release builds wrapped, e.g. `4.pow(2^63) == 1`; witness
+    `corpus/C01/pow_shift_overflow.case`.) -/
 def powShiftOverflows (n exp : Nat) : Bool :=
   trailingZeros n != 0 && decide (2 ^ usizeBits ≤ exp * trailingZeros n)
 
-/-- `UBig::pow` as the property requires it for a `usize` exponent -/
+/-- `UBig::pow` with its `usize` exponent arithmetic: `exp.checked_mul(shift)` or the allocation panic -/
 def ubigPowChecked (W : Nat) (a : TRepr) (exp : Nat) : Except PanicKind TRepr :=
   if powShiftOverflows (a.value W) exp then .error .allocTooMuch else .ok (ubigPow W a exp)
 
